@@ -212,6 +212,85 @@ func (e *Exec) intrinsic(st *State, fr *Frame, ci *callInfo) (Value, bool, bool)
 			e.usedContracts[c.Key] = true
 		}
 		return res, true, false
+	case "(*encoding/json.Decoder).Decode":
+		// modelled for a target of type *[]*T where T is a repository struct
+		// with its own UnmarshalJSON: the slice variable receives a freshly
+		// allocated slice of fresh, pairwise distinct, non-nil *T. When Decode
+		// reports success every element satisfies (a) the postconditions of
+		// (*T).UnmarshalJSON that speak about the receiver only and (b) the
+		// `type_invariant T:` clauses of the spec, which are ASSUMPTIONS about
+		// the bytes being decoded (listed in evidence). Nothing else is written.
+		tv := a[1]
+		if tv.Dyn == nil || tv.DynV == nil {
+			break
+		}
+		pt, ok := tv.Dyn.Underlying().(*types.Pointer)
+		if !ok {
+			break
+		}
+		slt, ok := pt.Elem().Underlying().(*types.Slice)
+		if !ok {
+			break
+		}
+		ept, ok := slt.Elem().Underlying().(*types.Pointer)
+		if !ok || !transparentStruct(ept.Elem()) {
+			break
+		}
+		uc := e.eng.specs.Funcs["(*"+typeKey(ept.Elem())+").UnmarshalJSON"]
+		if uc == nil {
+			break
+		}
+		used()
+		target := *tv.DynV
+		p := target.P
+		if p == nil {
+			p = &Place{Kind: PObj, Base: target.L[0], Typ: pt.Elem()}
+		}
+		before := st.allocTop
+		nt := e.freshConst("top.json", SInt)
+		st.assert(Ge(nt, st.allocTop))
+		st.allocTop = nt
+		base := e.freshConst("json.slice", SInt)
+		n := e.freshConst("json.len", SInt)
+		st.assert(And(Gt(base, before), Le(base, nt), Le(Zero, n), Le(n, Term{"140737488355328", SInt})))
+		e.storePlace(st, p, mkSlice(pt.Elem(), base, Zero, n))
+		e.emit(st, Event{Name: "JsonDecode", Args: []Term{a[0].L[0]}, Pos: ci.pos})
+		res := e.freshValue(st, ci.sig.Results().At(0).Type(), "json.err")
+		okT := Eq(res.L[0], Zero)
+		arr := e.cur(st, "elem:"+typeKey(slt.Elem()), SInt, true)
+		q := e.freshName("q.dec")
+		q2 := e.freshName("q.dec2")
+		el := func(i string) Term { return Select(Select(arr, base), Term{i, SInt}) }
+		rng := func(i string) Term { return And(Le(Zero, Term{i, SInt}), Lt(Term{i, SInt}, n)) }
+		st.assert(Term{fmt.Sprintf("(forall ((%s Int)) (! (=> %s (and (> %s %s) (<= %s %s))) :pattern (%s)))", q, rng(q).S, el(q).S, before.S, el(q).S, nt.S, el(q).S), SBool})
+		st.assert(Term{fmt.Sprintf("(forall ((%s Int) (%s Int)) (! (=> (and %s %s (not (= %s %s))) (not (= %s %s))) :pattern (%s %s)))", q, q2, rng(q).S, rng(q2).S, q, q2, el(q).S, el(q2).S, el(q).S, el(q2).S), SBool})
+		fv := Value{T: slt.Elem(), L: []Term{el(q)}}
+		env := &SpecEnv{e: e, st: st, vars: map[string]Value{}, pkg: fr.fn.Pkg.Pkg, what: "decoded " + uc.Key, oldTop: before, oldNow: st.now}
+		if fn := e.eng.funcs[uc.Key]; fn != nil && len(fn.Params) > 0 {
+			env.vars[fn.Params[0].Name()] = fv
+		}
+		env.vars["self"] = fv
+		env.vars["err"] = zeroValue(types.Universe.Lookup("error").Type())
+		var facts []Term
+		for _, en := range uc.Ensures {
+			if mentionsTrace(en.Expr) {
+				continue
+			}
+			if t, err := env.evalBool(en.Expr); err == nil {
+				facts = append(facts, t)
+			}
+		}
+		for _, cl := range e.eng.specs.TypeInv[typeKey(ept.Elem())] {
+			if t, err := env.evalBool(cl.Expr); err == nil {
+				facts = append(facts, t)
+				e.usedAssumed["assumption about decoded "+typeKey(ept.Elem())+" values ("+cl.Name+"): "+cl.Text] = true
+			}
+		}
+		if len(facts) > 0 {
+			st.assert(Term{fmt.Sprintf("(=> %s (forall ((%s Int)) (! (=> %s %s) :pattern (%s))))", okT.S, q, rng(q).S, And(facts...).S, el(q).S), SBool})
+		}
+		e.usedContracts[uc.Key] = true
+		return res, true, false
 	case "fmt.Sprintf", "fmt.Errorf":
 		// deterministic: the result is an uninterpreted function of the format
 		// and of the (unboxed) arguments when they are statically known
